@@ -93,7 +93,7 @@ def run(ctx: common.Ctx):
     judge(ctx, res, 'nested-in-splicing')
     cv_checks.judge_checkpoints(ctx, res, 'extra')
     s5 = dict(ctx.coverage['worker_stats'])
-    for kind, n in (('fusion', ctx.n(90, 1500)), ('circ', ctx.n(90, 1500))):
+    for kind, n in (('fusion', ctx.n(90, 1500)), ('circ', ctx.n(90, 1500)), ('combo', ctx.n(70, 1200))):
         bres = cv_checks.explore_backbone(ctx, kind, n, dict(exception=None))
         for r in bres:
             if 'S' not in r:
@@ -104,7 +104,7 @@ def run(ctx: common.Ctx):
             if not extra:
                 continue
             key = None
-            if kind == 'circ' and 'S_mixed' in r and not (extra - r['S_mixed']):
+            if kind in ('circ', 'combo') and 'S_mixed' in r and not (extra - r['S_mixed']):
                 key = cv_checks.KF_CIRC
             ctx.add_violation(
                 f'{len(extra)} reported {kind} peptide(s) are not products of the backbone carrying one '
